@@ -521,8 +521,13 @@ __gmp_doprnt (const struct doprnt_funs_t *funs, void *data,
             break;
 
           case '+':
-          case ' ':
             param.sign = fchar;
+            break;
+
+          case ' ':
+            /* C99: if the space and + flags both appear, the space flag is ignored */
+            if (param.sign != '+')
+              param.sign = fchar;
             break;
 
           case '-':
